@@ -2,7 +2,7 @@
     Property theorems only: statements in full, each closed by [exact] of a lemma proved elsewhere.
     [gen_*] are regenerated on every run from the running `sample` methods of /repo (gen/GenC03.v). *)
 From Coq Require Import Reals List String Bool Arith.
-From Leaspy Require Import Base.RAux Sampler.SamplerModel Sampler.SamplerProofs Sampler.MixtureProofs Sampler.SamplerTie Sampler.ExtremeProofs.
+From Leaspy Require Import Base.RAux Sampler.SamplerModel Sampler.SamplerProofs Sampler.MixtureProofs Sampler.SamplerTie Sampler.ExtremeProofs Sampler.DetailedBalance.
 From LeaspyGen Require Import GenC03.
 Import ListNotations.
 Local Open Scope R_scope.
@@ -14,6 +14,25 @@ Theorem C03_rule : forall pa na pr nr tinv : R,
   gen_alpha_ind pa na pr nr tinv = exp (- ((na - pa) + tinv * (nr - pr))).
 Proof. intros. split; [rewrite tie_alpha_pop | rewrite tie_alpha_ind]; apply alpha_eq. Qed.
 Print Assumptions C03_rule.
+
+(** What the rule is for.  With the symmetric proposal of the step (density q of proposing one state from the other, the same in
+    both directions) and a uniform draw, "accept iff u < threshold" accepts with probability min(1, threshold); for the REGENERATED
+    thresholds of both `sample` methods that probability satisfies the point-wise detailed-balance identity for the tempered target
+    exp(-(attachment + tinv * regularity)): the step is a Metropolis-Hastings transition for the documented target (the move from
+    (pa, pr) to (na, nr) against the reverse move, whose threshold is the same generated expression with the roles swapped). *)
+Theorem C03_detailed_balance : forall pa na pr nr tinv q : R,
+  target tinv pa pr * q * acc_prob (gen_alpha_pop pa na pr nr tinv) = target tinv na nr * q * acc_prob (gen_alpha_pop na pa nr pr tinv) /\
+  target tinv pa pr * q * acc_prob (gen_alpha_ind pa na pr nr tinv) = target tinv na nr * q * acc_prob (gen_alpha_ind na pa nr pr tinv) /\
+  0 < acc_prob (gen_alpha_pop pa na pr nr tinv) <= 1 /\
+  ((na - pa) + tinv * (nr - pr) <= 0 -> acc_prob (gen_alpha_pop pa na pr nr tinv) = 1 /\ acc_prob (gen_alpha_ind pa na pr nr tinv) = 1).
+Proof.
+  intros pa na pr nr tinv q.
+  destruct (C03_rule pa na pr nr tinv) as [Ep Ei]. destruct (C03_rule na pa nr pr tinv) as [Ep' Ei'].
+  rewrite Ep, Ei, Ep', Ei'.
+  split; [apply detailed_balance|]. split; [apply detailed_balance|]. split; [apply acc_prob_range|].
+  intros H. split; apply acc_prob_exp_ge; exact H.
+Qed.
+Print Assumptions C03_detailed_balance.
 
 (** Mixture model (per-cluster prior terms): the threshold the individual step computes — traced with 2 and with 3
     clusters — is exp(-D) with the regularity of EACH state weighted by the responsibilities
